@@ -124,8 +124,7 @@ def worker(ctx):
                     comp = sut_compiler.compile_schema(root, d, ["py", "c"] if use_c else ["py"])
                     dirs.append((d, comp))
             except Exception as e:
-                res.count("skipped_compile_error")
-                res.observe("compile_error_classes", f"{type(e).__name__}: {str(e)[:80]}")
+                harness.compile_failed(res, e, wit)
                 continue
             wit["schemas"] = {f"v{vi} ({'newest' if vi == 0 else 'older'})": pycommon.describe(r, dirs[vi][1]["paths"]) for vi, (r, _) in enumerate(versions)}
             res.case(True, wit["schemas"])
